@@ -463,7 +463,8 @@ gen_c02_scaled (gen_t *g, rng_t *r, scenario_t *sc)
 		a[9] = rng_chance (r, 1, 3) ? 65536 : rng_range (r, 6000, 5 * 65536);
 		a[7] = rng_range (r, -8 * 65536, 40 * 65536); a[10] = rng_range (r, -4 * 65536, 12 * 65536);
 		sc_addv (sc, MOP_SET_TRANSFORM, 14, a);
-		sc_addv (sc, MOP_SET_FILTER, 9, f);
+		/* the separable-convolution fetchers of the fast implementation serve exactly these formats */
+		if (rng_chance (r, 1, 5)) gen_filter (g, 2, 2); else sc_addv (sc, MOP_SET_FILTER, 9, f);
 		sc_addv (sc, MOP_SET_REPEAT, 5, rp);
 	    }
 	    switch (rng_n (r, 4))
